@@ -1042,4 +1042,30 @@ def rule_feeder_errors(ctx):
 
 
 
-RULES = [('C20.a', rule_a), ('C20.b', c06a), ('C20.c', c06b), ('C20.d', rule_d), ('C20.e', rule_e), ('C20.f', rule_f), ('C20.g', rule_g), ('C20.e+C20.g', rule_h), ('C15.d', rule_coroutines), ('C20.i', rule_i), ('C20.j', rule_j), ('C20.k', rule_k), ('C06.e', rule_queue_sources), ('C20.l', rule_empty_filter), ('C20.m', rule_handler_per_connection), ('C20.n', rule_feeder_errors)]
+
+def rule_empty_response_default(ctx):
+    """C20.o  A handler observable that completes empty answers with an empty payload - as a core handler that has
+    nothing to say does: the default_if_empty() of both handler adapters' request_response is Payload() built there,
+    not the request or anything else the adapter holds."""
+    rep = ctx.report
+    n = 0
+    for pkg, mod, cname in (('reactivex', 'rsocket.reactivex.reactivex_handler_adapter', 'ReactivexHandlerAdapter'),
+                            ('rx_support', 'rsocket.rx_support.rx_handler_adapter', 'RxHandlerAdapter')):
+        c = ctx.repo.cls('%s:%s' % (mod, cname))
+        f = c.methods.get('request_response') if c is not None else None
+        if f is None:
+            raise AnalysisError('C20.o: %s.request_response vanished' % cname)
+        sites = [x for x in walk_local(f.node) if isinstance(x, ast.Call) and isinstance(x.func, ast.Attribute) and
+                 x.func.attr == 'default_if_empty']
+        n += len(sites)
+        ok = bool(sites) and all(len(x.args) == 1 and isinstance(x.args[0], ast.Call) and
+                                 isinstance(x.args[0].func, ast.Name) and x.args[0].func.id == 'Payload' and
+                                 not x.args[0].args and not x.args[0].keywords for x in sites)
+        rep.add('C20.o', '%s %s.request_response / an empty observable answers with an empty payload' % (pkg, cname), f,
+                ok, 'default_if_empty(Payload())' if ok else
+                'the default is %s' % ', '.join(ast.unparse(x.args[0]) if x.args else 'missing' for x in sites))
+    rep.require('C20.o', 'default_if_empty sites', n, 2)
+
+
+
+RULES = [('C20.a', rule_a), ('C20.b', c06a), ('C20.c', c06b), ('C20.d', rule_d), ('C20.e', rule_e), ('C20.f', rule_f), ('C20.g', rule_g), ('C20.e+C20.g', rule_h), ('C15.d', rule_coroutines), ('C20.i', rule_i), ('C20.j', rule_j), ('C20.k', rule_k), ('C06.e', rule_queue_sources), ('C20.l', rule_empty_filter), ('C20.m', rule_handler_per_connection), ('C20.n', rule_feeder_errors), ('C20.o', rule_empty_response_default)]
